@@ -153,15 +153,21 @@ def r2(repo, run):
         keys = [0, 1, 2, 3, 'a', 'k']
         argsets = [{k: 'v%s' % k for k in sub} for n in range(0, 4) for sub in itertools.combinations(keys, n)]
         argsets += [{1: 'v1', 0: 'v0'}, {2: 'v2', 0: 'v0', 1: 'v1'}]
-    for sig in sigs:
-        for args in argsets:
+    EMPTY = ('kind', 'empty')
+    for sig, args, with_defaults in [(s_, a_, d_) for s_ in sigs for a_ in argsets for d_ in (False, True)]:
+        if True:
+            # (with_defaults: every named parameter declares a default - what a gap in the positions is bound to does not depend on it:
+            # `!bind f {1: x}` must leave parameter 0 open for the caller, not fill in its default)
+            if with_defaults and (thorough() or not any(isinstance(k_, int) for k_ in args)):
+                continue
             params = {}
             for name, kind in sig:
-                params[name] = Obj('param_' + name, 'object', kind=kinds[kind])
+                params[name] = Obj('param_' + name, 'object', kind=kinds[kind], default=('DEFAULT_' + name) if with_defaults and kind not in (VP, VK) else ('ext', EMPTY))
                 params[name].f['name'] = name
             sigobj = Obj('sig', 'object', parameters=params)
             f = FDE(repo)
             f.externals = {'inspect.Parameter.' + k: v[1] for k, v in kinds.items()}
+            f.externals.update({'inspect.Parameter.empty': EMPTY, 'inspect._empty': EMPTY, 'inspect.Signature.empty': EMPTY})
             f.extcalls = {'inspect.signature': lambda fn, sigobj=sigobj: sigobj}
             target = Obj('target', 'object')
             target.f['__code__'] = Obj('code', 'object', co_varnames=('self',) + tuple(n for n, _ in sig), co_argcount=1 + len([1 for _, k in sig if k in (PO, POK)]),
@@ -180,7 +186,7 @@ def r2(repo, run):
                 got = r.ret
                 okk = r.raised is None and isinstance(r.ret, (tuple, list)) and len(r.ret) == 3 and list(r.ret[0]) == exp[0] and dict(r.ret[1]) == exp[1] and dict(r.ret[2]) == exp[2]
             if not okk:
-                bad.append((['%s:%s' % (n, k) for n, k in sig], args, got if r.raised is None else 'raises ' + str(r.raised), exp))
+                bad.append((['%s:%s%s' % (n, k, '=<default>' if with_defaults and k not in (VP, VK) else '') for n, k in sig], args, got if r.raised is None else 'raises ' + str(r.raised), exp))
     run.table('C13.R2', rows, '_resolve_args over signatures x argument mappings')
     if bad:
         sg, ar, got, exp = bad[0]
@@ -235,12 +241,16 @@ def r3b(repo, run):
     fi = repo.func('FunctionNode.ayns.on_merge_impl')
     bad = []
     rows = 0
-    for same in (True, False):
+    # targets are dotted names (from YAML) or the callables themselves (nodes built from Python): two different callables that share
+    # their module and name (methods of two classes, closures of one factory) are different targets
+    fnA = Obj('A.create', 'function', __module__='pkg.models', __name__='create', __qualname__='A.create')
+    fnB = Obj('B.create', 'function', __module__='pkg.models', __name__='create', __qualname__='B.create')
+    for same, F, G in ((True, 'f', 'f'), (False, 'f', 'g'), (True, fnA, fnA), (False, fnA, fnB)):
         for a in PRIOS:
             for b in PRIOS:
                 for d in (None, True, False):
-                    me = node_obj('self', 'CallNode', _priority=a, _func='f', _children={})
-                    ot = node_obj('other', 'CallNode', _priority=b, _func=('f' if same else 'g'), _delete=d, _children={})
+                    me = node_obj('self', 'CallNode', _priority=a, _func=F, _children={})
+                    ot = node_obj('other', 'CallNode', _priority=b, _func=G, _delete=d, _children={})
                     log = []
 
                     def stub(name, recv, args, kwargs, log=log):
@@ -256,16 +266,16 @@ def r3b(repo, run):
                     newer_wins = mt.P(b) >= mt.P(a)
                     eff_delete = d if d is not None else True          # function nodes delete by default
                     if same:
-                        want = dict(func='f', merged=True)
+                        want = dict(func=F, merged=True)
                         got = dict(func=me.f.get('_func'), merged=merged)
                     elif newer_wins:
-                        want = dict(func='g', merged=True, cleared=bool(eff_delete))
+                        want = dict(func=G, merged=True, cleared=bool(eff_delete))
                         got = dict(func=me.f.get('_func'), merged=merged, cleared=cleared)
                     else:
-                        want = dict(func='f', merged=False, cleared=False)
+                        want = dict(func=F, merged=False, cleared=False)
                         got = dict(func=me.f.get('_func'), merged=merged, cleared=cleared)
                     if got != want:
-                        bad.append(('same target' if same else 'other target', a, b, d, got, want))
+                        bad.append((('same target' if same else 'other target') + ('' if isinstance(F, str) else ' (callables sharing module and name)'), a, b, d, got, want))
     # a plain mapping (no target of its own) merged onto a function node: only arguments change
     for a in PRIOS:
         for b in PRIOS:
@@ -411,6 +421,8 @@ def mutants(repo):
         Mutant('prefix-by-insertion-order', lambda r: in_func(r, 'FunctionNode._resolve_args',
                "        idx = 0\n        unpack = []\n        while True:\n            if idx not in positional_args:\n                break\n            unpack.append(positional_args.pop(idx))\n            idx += 1\n",
                "        n = 0\n        while n in positional_args:\n            n += 1\n        unpack = [v for _, v in list(positional_args.items())[:n]]\n        positional_args = dict(list(positional_args.items())[n:])\n"), ['C13.R2']),
+        Mutant('targets-compared-by-name', lambda r: in_func(r, 'FunctionNode.ayns.on_merge_impl', "new_func = (self._func != other._func)", "new_func = (getattr(self._func, '__name__', self._func) != getattr(other._func, '__name__', other._func))"), ['C13.R3']),
+        Mutant('gaps-filled-with-declared-defaults', lambda r: in_func(r, 'FunctionNode._resolve_args', "            if idx not in positional_args:\n                break", "            if idx not in positional_args:\n                if idx < len(params) and idx < max(positional_args, default=-1) and params[idx].default is not inspect.Parameter.empty:\n                    unpack.append(params[idx].default)\n                    idx += 1\n                    continue\n                break"), ['C13.R2']),
         Mutant('str-target-keeps-arguments', lambda r: in_func(r, 'FunctionNode.ayns.on_merge_impl', "                self._func = other\n                self.clear()\n", "                self._func = other\n"), ['C13.R3']),
         Mutant('target-change-without-priority', lambda r: in_func(r, 'FunctionNode.ayns.on_merge_impl', "            if not other.ayns.has_priority_over(self, if_equal=True):\n                self._replace_other(other)\n                return self\n", ""), ['C13.R3']),
         Mutant('setdefault-delete-removed', lambda r: in_func(r, 'FunctionNode.__init__', "        kwargs.setdefault('delete', True)\n", ""), ['C13.R4']),
